@@ -524,10 +524,41 @@ func init() {
 				r.undecided(fnName(fn)+"/term-loop", fnName(fn), c.pos(fn.Pos()), "term loop not found")
 				return
 			}
+			// the remembered previous term: the loop-carried slice, or - when the loop's state
+			// lives in a struct - the byte-slice field that the term comparison (bytes.Equal, in
+			// the loop or in a predicate method of that struct) reads
+			prevFields := map[*types.Var]bool{}
+			eqFns := []*ssa.Function{fn}
+			for _, h := range staticCallees(fn) {
+				if c.inRoot(h) && h.Blocks != nil && len(h.Blocks) <= 4 {
+					eqFns = append(eqFns, h)
+				}
+			}
+			for _, f := range eqFns {
+				for _, eq := range callsOfFull(f, "bytes.Equal") {
+					for _, a := range eq.Call.Args {
+						if ld, ok := a.(*ssa.UnOp); ok && ld.Op == token.MUL {
+							if fa, ok := ld.X.(*ssa.FieldAddr); ok {
+								if _, fv := fieldAddrInfo(fa); fv != nil {
+									prevFields[fv] = true
+								}
+							}
+						}
+					}
+				}
+			}
 			isPrev := func(v ssa.Value) bool {
-				// the loop-carried previous-term slice
-				_, ok := v.(*ssa.Phi)
-				return ok && strings.Contains(exprSig(v, 0), "prevTerm")
+				if _, ok := v.(*ssa.Phi); ok && strings.Contains(exprSig(v, 0), "prevTerm") {
+					return true
+				}
+				if ld, ok := v.(*ssa.UnOp); ok && ld.Op == token.MUL {
+					if fa, ok := ld.X.(*ssa.FieldAddr); ok {
+						if _, fv := fieldAddrInfo(fa); fv != nil && prevFields[fv] {
+							return true
+						}
+					}
+				}
+				return false
 			}
 			atoms := func(v ssa.Value) (int, bool, bool) {
 				if call, ok := v.(*ssa.Call); ok {
@@ -547,7 +578,7 @@ func init() {
 				}
 				return 0, false, false
 			}
-			be := &boolExec{fn: fn, atoms: atoms, n: 2}
+			be := &boolExec{fn: fn, atoms: atoms, n: 2, inline: true}
 			blocksOf := func(calls []*ssa.Call) map[*ssa.BasicBlock]bool {
 				m := map[*ssa.BasicBlock]bool{}
 				for _, cl := range calls {
@@ -632,6 +663,10 @@ func init() {
 			// (resp. uint64) loaded from memory — an element of the parallel slices or a
 			// field of a per-iterator cursor struct — not the low key kept by the enumerator
 			isKey := func(v ssa.Value) bool {
+				// (inside a predicate helper the key arrives as its []byte parameter)
+				if p, ok := v.(*ssa.Parameter); ok && p.Parent() != fn && isByteSlice(p.Type()) {
+					return true
+				}
 				ld, ok := v.(*ssa.UnOp)
 				if !ok || ld.Op != token.MUL || !isByteSlice(v.Type()) {
 					return false
@@ -981,6 +1016,11 @@ func init() {
 										}
 										return "", false
 									})
+								}
+								// a helper that restarts the slice it is handed ([:0]) before it
+								// appends to it and returns it
+								if sc := x.Call.StaticCallee(); sc != nil && c.inRoot(sc) && sc.Blocks != nil && returnsRestarted(c, sc) {
+									return "fresh"
 								}
 								worst, n := "fresh", 0
 								for _, a := range x.Call.Args {
@@ -1592,4 +1632,68 @@ func mustResetBuffer(fn *ssa.Function, path string) bool {
 		}
 	}
 	return true
+}
+
+// returnsRestarted: every []byte result of fn, on every return that may
+// report success, is built up from an empty slice made inside fn (p[:0] of a
+// parameter, make, nil) - by append or through in-package helpers that get it
+// as their []byte argument - never from what a []byte parameter held on entry.
+func returnsRestarted(c *Ctx, fn *ssa.Function) bool {
+	var classify func(v ssa.Value, seen map[ssa.Value]bool, d int) bool
+	classify = func(v ssa.Value, seen map[ssa.Value]bool, d int) bool {
+		if seen[v] {
+			return true
+		}
+		seen[v] = true
+		if d > 16 {
+			return false
+		}
+		switch x := v.(type) {
+		case *ssa.Const, *ssa.MakeSlice:
+			return true
+		case *ssa.Slice:
+			if k, ok := constInt(x.High); ok && k == 0 && x.High != nil {
+				return true
+			}
+			return classify(x.X, seen, d+1)
+		case *ssa.Phi:
+			for _, e := range x.Edges {
+				if !classify(e, seen, d+1) {
+					return false
+				}
+			}
+			return true
+		case *ssa.Extract:
+			return classify(x.Tuple, seen, d+1)
+		case *ssa.Call:
+			if bi, ok := x.Call.Value.(*ssa.Builtin); ok && bi.Name() == "append" {
+				return classify(x.Call.Args[0], seen, d+1)
+			}
+			n := 0
+			for _, a := range x.Call.Args {
+				if isByteSlice(a.Type()) {
+					n++
+					if !classify(a, seen, d+1) {
+						return false
+					}
+				}
+			}
+			return n > 0
+		}
+		return false
+	}
+	nres := 0
+	for _, rb := range maySucceedReturns(fn) {
+		ret := rb.Instrs[len(rb.Instrs)-1].(*ssa.Return)
+		for _, res := range ret.Results {
+			if !isByteSlice(res.Type()) {
+				continue
+			}
+			nres++
+			if !classify(resolveLoad(res), map[ssa.Value]bool{}, 0) {
+				return false
+			}
+		}
+	}
+	return nres > 0
 }
